@@ -584,8 +584,8 @@ var Programs = []Prog{
 		}
 	}},
 	{"ticker-ticks-then-stop", true, func() string {
+		a := time.Now() // (before the ticker exists: a reading taken after NewTicker may be later than its start by any amount on a loaded machine)
 		tk := time.NewTicker(3 * time.Millisecond)
-		a := time.Now()
 		<-tk.C
 		<-tk.C
 		el := time.Since(a) >= 6*time.Millisecond
